@@ -7,6 +7,7 @@ package main
 
 import (
 	"go/token"
+	"go/types"
 
 	"golang.org/x/tools/go/ssa"
 )
@@ -564,6 +565,80 @@ func ruleIdx8(c *Ctx) []*Ob {
 	}
 	if n == 0 {
 		o.add(fn, "newSegmentKeysIndex", c.pos(f.Pos()), false, "anchor lost")
+	}
+	return o.list
+}
+
+// ---------------------------------------------------------------- IDX-9
+
+func init() {
+	register(&Rule{
+		ID: "IDX-9",
+		Doc: "A search answers inside its window: every position returned by a function that takes its window from segment.searchIndex (findKeyPos, findStartKeyInclusivePos) is built from the window's ends, " +
+			"arithmetic on them and constants - never from a quantity of the whole segment such as Len(). With a key index the window is a proper sub-range [i*hop, j*hop); " +
+			"'the probe is beyond the window's last key' means position j, and only without an index is that the segment's end.",
+		Props: []string{"C14", "C09"},
+		Floor: 2,
+		Run:   ruleIdx9,
+	})
+}
+
+func ruleIdx9(c *Ctx) []*Ob {
+	o := newObs(c, "IDX-9")
+	si := c.Fn("(*segment).searchIndex")
+	for _, f := range c.Funcs {
+		ks := callsToFn(f, si)
+		if len(ks) == 0 {
+			continue
+		}
+		fn := c.fname(f)
+		eachInstr(f, func(i ssa.Instruction) {
+			r, ok := i.(*ssa.Return)
+			if !ok {
+				return
+			}
+			for _, res := range r.Results {
+				bt, isB := res.Type().Underlying().(*types.Basic)
+				if !isB || bt.Info()&types.IsInteger == 0 {
+					continue
+				}
+				bad := ""
+				seen := map[ssa.Value]bool{}
+				var leafs func(v ssa.Value, d int)
+				leafs = func(v ssa.Value, d int) {
+					if seen[v] || d > 12 || bad != "" {
+						return
+					}
+					seen[v] = true
+					for _, og := range origins(v) {
+						switch x := og.(type) {
+						case *ssa.Const:
+						case *ssa.BinOp:
+							leafs(x.X, d+1)
+							leafs(x.Y, d+1)
+						case *ssa.Extract:
+							if call, isC := x.Tuple.(*ssa.Call); isC && call.Call.StaticCallee() == si {
+								continue
+							}
+							bad = accessPath(og)
+						case *ssa.Phi:
+							// origins resolves phis; a phi that survives is a loop-carried value: follow its edges
+							for _, e := range x.Edges {
+								leafs(e, d+1)
+							}
+						default:
+							bad = accessPath(og)
+						}
+					}
+				}
+				leafs(res, 0)
+				why := "the position is built from the window returned by searchIndex"
+				if bad != "" {
+					why = "the returned position derives from " + bad + ", which is not part of the window searchIndex returned: with a key index the window is a sub-range of the segment and the answer depends on the index settings"
+				}
+				o.add(fn, "returned position stays inside the window", c.instrPos(r), bad == "", why)
+			}
+		})
 	}
 	return o.list
 }
